@@ -237,10 +237,11 @@ def go_build_overlay(name, files, pkgdir, tags=None, race=False, extra_replace=N
         ov["Replace"][os.path.join(REPO, pkgdir, base)] = os.path.abspath(src)
     if extra_replace:
         ov["Replace"].update(extra_replace)
-    ovp = os.path.join(BUILD, name + ".overlay.json")
+    ovp = os.path.join(BUILD, "%s.%d.overlay.json" % (name, os.getpid()))
     json.dump(ov, open(ovp, "w"))
     out = os.path.join(BUILD, name + (".race" if race else "") + ".bin")
-    cmd = ["go", "build", "-overlay", ovp, "-o", out]
+    tmp = "%s.%d.tmp" % (out, os.getpid())
+    cmd = ["go", "build", "-overlay", ovp, "-o", tmp]
     if race:
         cmd.append("-race")
     if tags:
@@ -250,8 +251,13 @@ def go_build_overlay(name, files, pkgdir, tags=None, race=False, extra_replace=N
     if race:
         env["CGO_ENABLED"] = "1"
     rc, o = sh(cmd, cwd=REPO, env=env, timeout=900)
+    try:
+        os.remove(ovp)
+    except OSError:
+        pass
     if rc:
         raise GoBuildError(o)
+    os.replace(tmp, out)   # atomic: a check that is still running the previous binary keeps its own copy
     return out
 
 
